@@ -4,4 +4,5 @@ import "verif/harness/internal/cfbx"
 
 func init() {
 	register("cfb-history", func(a []string) { cfbx.History(a) })
+	register("cfb-difat", func(a []string) { cfbx.Difat(a) })
 }
